@@ -7,15 +7,15 @@ from ..oracles import landscape as OL
 from .C03 import gen_bars
 
 ID = "C09"
-CASES = {"quick": 1600, "thorough": 25000}
-MIN_NONTRIVIAL = {"quick": 500, "thorough": 8000}
+CASES = {"quick": 1600, "thorough": 250000}
+MIN_NONTRIVIAL = {"quick": 500, "thorough": 34374}
 REQUIRED = ["exact: result == pointwise combination (complete PL comparison)", "grid: result == pointwise combination",
             "operands unchanged after the step", "snap_pl == linear interpolation of every depth",
             "lc_approx == combination of re-sampled values", "average_approx == mean of re-sampled values",
             "mismatched hom_deg rejected", "mismatched grids rejected", "result keeps grid / degree"]
 RULE = ("random histories (3-12 steps) over a shared pool of operands: exact landscapes from diagrams and from explicit "
         "continuous zero-ended critical points (coincident / interleaved abscissae, sign changes, zero function, different depth "
-        "counts), grid landscapes from diagrams and from arbitrary value arrays; steps drawn from + - neg *c c* /c (int and float "
+        "counts), grid landscapes from diagrams and from arbitrary value arrays (int64, float32, float64 tables); steps drawn from + - neg *c c* /c (int and float "
         "scalars in {0,+-1,+-0.5,3,1e-3,1e3}), snap_pl, lc_approx, average_approx, and deliberately mismatched operands; results "
         "re-enter the pool; every pool member is snapshotted (deep copy) and re-compared after every step. non-trivial = history "
         "with >=3 steps containing a binary step whose operands have different depth counts or share an abscissa; distinct = "
@@ -45,7 +45,7 @@ def snap_exact(P):
 
 def snap_grid(P):
     return {"kind": "grid", "hom": P.hom_deg, "start": P.start, "stop": P.stop, "num": P.num_steps,
-            "values": np.array(P.values, dtype=float, copy=True)}
+            "values": np.array(P.values, dtype=float, copy=True), "dtype": str(np.asarray(P.values).dtype)}
 
 
 def snapshot(P):
@@ -164,6 +164,12 @@ def new_grid(rng):
     vals = rng.integers(-4, 5, (K, num)) / 2.0
     if rng.random() < 0.6:
         vals[:, 0] = 0; vals[:, -1] = 0
+    # the samples may arrive in any numeric dtype: integer tables, single precision, double precision
+    dt = str(rng.choice(["float64", "float64", "int64", "float32"]))
+    if dt == "int64":
+        vals = np.round(vals * 2).astype(np.int64)
+    elif dt == "float32":
+        vals = vals.astype(np.float32)
     return PLA(start=start, stop=stop, num_steps=num, values=vals, hom_deg=hom)
 
 
@@ -290,7 +296,7 @@ def run_case(ctx, k, rng):
                     bad = None
                     for t, (P, (v, mask)) in enumerate(zip(out, exp)):
                         got = np.asarray(P.values, float)
-                        tol = 1e-12 * max(1.0, magnitude(ms[t]))
+                        tol = (1e-6 if ms[t].get("dtype") == "float32" else 1e-12) * max(1.0, magnitude(ms[t]))
                         if got.shape != v.shape or not np.all((np.abs(got - v) <= tol) | ~mask) or \
                                 (P.start, P.stop, P.num_steps, P.hom_deg) != (gs, ge, gn, ms[t]["hom"]):
                             ok = False; bad = t
@@ -310,7 +316,8 @@ def run_case(ctx, k, rng):
                 for (v, mk) in exp:
                     mask[:len(mk)] &= mk
                 got = np.asarray(res.values, float)
-                tol = 1e-12 * max(1.0, sum(abs(cc) * magnitude(s) for cc, s in zip(coeffs, ms))) * (len(ms) + 1)
+                tol = (1e-6 if any(s.get("dtype") == "float32" for s in ms) else 1e-12) * \
+                    max(1.0, sum(abs(cc) * magnitude(s) for cc, s in zip(coeffs, ms))) * (len(ms) + 1)
                 ok = got.shape == want.shape and np.all((np.abs(got - want) <= tol) | ~mask) and \
                     (res.start, res.stop, res.num_steps, res.hom_deg) == (gs, ge, gn, hom0)
                 ctx.check("lc_approx == combination of re-sampled values" if op == "lc" else "average_approx == mean of re-sampled values",
@@ -342,7 +349,8 @@ def run_case(ctx, k, rng):
         else:
             want = combine([s["values"] for s in ss], coeffs, ss[0]["num"])
             got = rs["values"]
-            okk = got.shape == want.shape and bool(np.all(np.abs(got - want) <= 1e-12 * mag))
+            rel = 1e-6 if any(s.get("dtype") == "float32" for s in ss) or rs.get("dtype") == "float32" else 1e-12
+            okk = got.shape == want.shape and bool(np.all(np.abs(got - want) <= rel * mag))
             ctx.check("grid: result == pointwise combination", okk, step=stepno, op=op, got_shape=got.shape, want_shape=want.shape)
             ctx.check("result keeps grid / degree", (rs["start"], rs["stop"], rs["num"], rs["hom"]) ==
                       (ss[0]["start"], ss[0]["stop"], ss[0]["num"], ss[0]["hom"]), got=[rs["start"], rs["stop"], rs["num"], rs["hom"]])
